@@ -23,6 +23,7 @@ real files does not share a parser with xknx's loader.
 from __future__ import annotations
 
 import base64
+import functools
 import hashlib
 import os
 import re
@@ -145,15 +146,19 @@ def dec_password(b64: str, h: bytes, iv: bytes) -> tuple[bytes, str]:
 # -- signature ----------------------------------------------------------------
 
 
-def _s(value: str | bytes) -> bytes:
+def _s(value: str | bytes, wrap: bool = False) -> bytes:
     raw = value.encode("utf-8") if isinstance(value, str) else value
-    if len(raw) > 255:
+    if len(raw) > 255 and not wrap:
         raise ValueError("string longer than the one-octet length prefix of the signature scheme")
-    return bytes([len(raw)]) + raw
+    return bytes([len(raw) & 0xFF]) + raw
 
 
-def canonical(root: El, h: bytes) -> bytes:
+def canonical(root: El, h: bytes, wrap: bool = False) -> bytes:
+    """`wrap`: strings longer than 255 octets get the low octet of their length (what a writer that
+    emits the length through a byte stream does, e.g. Calimero); not covered by the real exports, so
+    the check never relies on such a signature being the right one."""
     out = bytearray()
+    _s = functools.partial(globals()["_s"], wrap=wrap)
 
     def rec(e: El) -> None:
         out.append(1)
@@ -170,8 +175,8 @@ def canonical(root: El, h: bytes) -> bytes:
     return bytes(out)
 
 
-def signature(root: El, h: bytes) -> str:
-    return base64.b64encode(hashlib.sha256(canonical(root, h)).digest()[:16]).decode("ascii")
+def signature(root: El, h: bytes, wrap: bool = False) -> str:
+    return base64.b64encode(hashlib.sha256(canonical(root, h, wrap)).digest()[:16]).decode("ascii")
 
 
 # -- model -> tree ------------------------------------------------------------
@@ -181,7 +186,7 @@ def ia_str(raw: int) -> str:
     return f"{raw >> 12 & 0xF}.{raw >> 8 & 0xF}.{raw & 0xFF}"
 
 
-def build_tree(p: dict) -> El:
+def build_tree(p: dict, wrap: bool = False) -> El:
     """Element tree (signed) of a project description; see checks/c31.py for the field list."""
     h = password_hash(p["password"])
     iv = created_iv(p["created"])
@@ -207,7 +212,10 @@ def build_tree(p: dict) -> El:
         if itf.get("auth") is not None:
             e.attrs.append(("Authentication", enc_password(itf["auth"], itf["rand"][8:16], h, iv)))
         for ga, senders in itf.get("groups", []):
-            e.children.append(El("Group", [("Address", str(ga)), ("Senders", " ".join(ia_str(s) for s in senders))]))
+            g = El("Group", [("Address", str(ga))])
+            if senders is not None:  # ETS writes Senders="" for a group without senders; absence is tolerated too
+                g.attrs.append(("Senders", " ".join(ia_str(s) for s in senders)))
+            e.children.append(g)
         root.children.append(e)
     if p.get("groups"):
         e = El("GroupAddresses")
@@ -228,7 +236,7 @@ def build_tree(p: dict) -> El:
                 d.attrs.append(("SequenceNumber", str(dev["seq"])))
             e.children.append(d)
         root.children.append(e)
-    root.set("Signature", signature(root, h))
+    root.set("Signature", signature(root, h, wrap))
     return root
 
 
